@@ -134,7 +134,11 @@ func c01Program(w *W, stratum string, tree *Node, bs []Binding, undefined bool, 
 		return
 	}
 	if co.Err != nil {
-		w.Fail("compile-rejects-wellformed", "Compile rejected a well-formed program: %v\nsource: %s\nconfig: %s", co.Err, src, cfg)
+		if c09Expect(tree, cfg.Opts, cfg.Events) != 0 {
+			w.Inc("rejected_by_capacity_limit")
+			return
+		}
+		w.Fail("compile-rejects-wellformed", "Compile rejected a well-formed program: %v\nsource: %s\nconfig: %s", co.Err, firstN(src, 3000), cfg)
 		return
 	}
 	w.Sample(stratum, src)
